@@ -326,6 +326,40 @@ func init() {
 			return err
 		})
 	})
+	// C07.warmcopy <mem|dir> <sigKey>: ONE long-lived key store creates and reads ring A (so whatever the store
+	// remembers about verified rings is warm), then A's stored file is copied to ring B's path and B is opened
+	// read-only and read-write through the SAME store. Both must fail and the copied file must stay as it is:
+	// the signature context (the ring path) is part of what is verified, however often the bytes were seen.
+	core.Register("C07.warmcopy", func(a []string) string {
+		w := newRWWorld(a[0])
+		defer w.close()
+		ks, err := filesystem.CustomKeyStore(noClose{w.inner}, rwSuite(core.UnHex(a[1])))
+		if err != nil {
+			panic("harness: " + err.Error())
+		}
+		pa, pb := "client/alice/storage", "client/bob/storage"
+		if _, err := ks.OpenKeyRingRW(pa); err != nil {
+			return "err create"
+		}
+		for i := 0; i < 2; i++ {
+			if _, err := ks.OpenKeyRing(pa); err != nil {
+				return "err read-own"
+			}
+		}
+		da, ok := w.snapshot()[pa+".keyring"]
+		if !ok {
+			return "err no-file"
+		}
+		w.plant(pb+".keyring", append([]byte{}, da...))
+		_, e1 := ks.OpenKeyRing(pb)
+		_, e2 := ks.OpenKeyRingRW(pb)
+		db := w.snapshot()[pb+".keyring"]
+		res := "ro=" + map[bool]string{true: "ok", false: "err"}[e1 == nil] + " rw=" + map[bool]string{true: "ok", false: "err"}[e2 == nil]
+		if bytes.Equal(db, da) {
+			return res + " unchanged"
+		}
+		return res + " changed"
+	})
 	// C07.roopen <mem|dir> <path> <stored|absent> <sigKey>
 	core.Register("C07.roopen", func(a []string) string {
 		path := string(core.UnHex(a[1]))
@@ -598,6 +632,13 @@ func runRingOpen(r *core.Run) {
 		}
 	}
 
+	// a ring file copied to another ring's path, offered to a key store that has ALREADY verified the original
+	for _, kind := range []string{"mem", "dir"} {
+		r.Begin("warmcopy-"+kind, true, "rwopen:warm-copy")
+		out := r.Impl(fmt.Sprintf("C07.warmcopy %s %s", kind, core.Hex([]byte("c07-warm-copy-signature-key-32by"))))
+		r.Check(out == "ro=err rw=err unchanged", "copied-ring-accepted-by-warm-store",
+			"a long-lived v2 key store that has read ring client/alice/storage was given alice's ring file at client/bob/storage: "+out+" (must be ro=err rw=err unchanged; theorem copied_ring_preserved_and_reported)")
+	}
 	// the file-system key store itself: OpenKeyRingRW, OpenKeyRing, a write-back on an open handle, bundle import
 	n := r.N(3, 30)
 	for i := 0; i < n; i++ {
